@@ -40,6 +40,7 @@ class Gen:
     def __init__(s, mod, uf=False, ovr=()):
         s.m = mod; s.uf = uf; s.ovr = set(ovr)
         s.tnames = {}; s.tdefs = []; s.all_types = []; s.body = []; s.protos = []
+        s.retyped = {}
         s.helpers = {}       # C element type -> helper id (typed calloc/realloc/zero/copy)
         s.strings = {}
         for nm, g in mod.gl.items():
@@ -149,6 +150,9 @@ class Gen:
         if isinstance(v, CExpr):
             if v.op == 'getelementptr':
                 return s.gep(v.bt, s.val(v.base, v.pt, env), [(it, ix, s.val(ix, it, env)) for it, ix in v.idx])
+            if v.op == 'bitcast' and isinstance(v.v, GlobalRef) and v.v.name in s.retyped and isinstance(v.tt, TPtr) \
+               and v.tt.to.key() == s.retyped[v.v.name].key():
+                return '(&g_%s)' % cname(v.v.name)
             if v.op in CASTS: return s.cast(v.op, v.ft, s.val(v.v, v.ft, env), v.tt)
             if v.op in BIN: return s.binop(v.op, v.ty, s.val(v.a, v.ty, env), s.val(v.b, v.ty, env), v.flags)
             if v.op == 'icmp': return s.icmp(v.cc, v.ty, s.val(v.a, v.ty, env), s.val(v.b, v.ty, env))
@@ -529,6 +533,43 @@ static void vf_move_%(k)s(%(T)s* d, %(T)s* s, u64 n) { memmove(d, s, n * sizeof(
         return '%s%s(%s);' % (asg, cexpr, ', '.join(args))
 
     # ---------------------------------------------------------------- output
+    def flatten(s, v, t, out):
+        rt = s.resolve(t)
+        if isinstance(rt, (TInt, TFloat, TPtr)):
+            out.append((t, CInt(0) if isinstance(v, (CZero, CUndef)) and isinstance(rt, TInt) else (CNull() if isinstance(v, (CZero, CUndef)) and isinstance(rt, TPtr) else v)))
+        elif isinstance(rt, TArr):
+            for i in range(rt.n):
+                s.flatten(v if isinstance(v, (CZero, CUndef)) else v.els[i][1], rt.el, out)
+        elif isinstance(rt, TStruct):
+            for i, e in enumerate(rt.els):
+                s.flatten(v if isinstance(v, (CZero, CUndef)) else v.els[i][1], e, out)
+        else:
+            raise NotImplementedError('flatten ' + t.key())
+
+    def nest(s, scalars, t):
+        rt = s.resolve(t)
+        if isinstance(rt, TArr):
+            return CAgg([(rt.el, s.nest(scalars, rt.el)) for _ in range(rt.n)], 'arr')
+        if isinstance(rt, TStruct):
+            return CAgg([(e, s.nest(scalars, e)) for e in rt.els], 'struct')
+        return scalars.pop(0)[1]
+
+    def retype_packed_globals(s, text):
+        """clang emits constant arrays with zero runs as packed anonymous structs and accesses them through a constant
+        bitcast to the array type; give such globals the array type (CBMC mis-resolves indexing across the struct's members)"""
+        for nm, g in s.m.gl.items():
+            rt = g.ty
+            if not (isinstance(rt, TStruct) and rt.packed) or g.init is None: continue
+            tgt = set(re.findall(r'bitcast \(<\{[^@]*\}>\* %s to (\[[^@]*?\])\*\)' % re.escape(nm), text))
+            if len(tgt) != 1: continue
+            try:
+                T = P(lex(tgt.pop())).type()
+                if s.m.sizeof(T) != s.m.sizeof(rt): continue
+                sc = []; s.flatten(g.init, rt, sc)
+                g.init = s.nest(sc, T); g.ty = T; s.retyped[nm] = T
+            except Exception as e:
+                continue
+
     def generate(s, only=None):
         m = s.m
         for nm in m.order:
@@ -617,5 +658,7 @@ if __name__ == '__main__':
     uf = 'all' if '--uf' in a else ('muldiv' if '--uf-muldiv' in a else False)
     ovr = []
     if '--ovr' in a: ovr = a[a.index('--ovr') + 1].split(',')
-    g = Gen(Module(open(a[0]).read()), uf=uf, ovr=ovr)
+    text = open(a[0]).read()
+    g = Gen(Module(text), uf=uf, ovr=ovr)
+    g.retype_packed_globals(text)
     sys.stdout.write(g.generate())
